@@ -188,6 +188,12 @@ pub fn run(ctx: &mut Ctx) {
             cells.push((nv, d));
         }
     }
+    // beyond the grid: many variables at degree one (word-sized bit masks over variables end at 64 / 128)
+    cells.push((66, 1));
+    cells.push((130, 1));
+    if ctx.is_thorough() {
+        cells.push((65, 2));
+    }
     let reps = if ctx.is_thorough() { 8 } else { 2 };
     let n = (cells.len() * reps) as u64;
     ctx.note("grid", json!({"cells": cells.len(), "repetitions": reps, "exhaustive_on_1..6x1..6": ctx.is_thorough()}));
